@@ -90,6 +90,7 @@ class Frame:
 
 CLASS_IDS = {}
 typeof = z3.Function("typeof", REF, INT)
+DEME_CLASS_OF = z3.Function("deme_class_of", INT, INT)
 
 
 def class_id(name):
@@ -187,6 +188,11 @@ class Ex:
         return self.heap[key]
 
     def hset(self, field, sort, m):
+        # passive form: every heap version is a constant with a defining equation (keeps terms and patterns small)
+        if not z3.is_const(m) and not getattr(self, "binder_depth", 0) and not getattr(self, "pure_depth", 0):
+            c = self.fresh(f"H_{field}_v", m.sort())
+            self.pc.append(c == m)
+            m = c
         self.heap[(field, sort_key(sort))] = m
 
     def rd(self, obj, field, ty):
@@ -215,10 +221,41 @@ class Ex:
         r = self.fresh(name, REF)
         self.assume(r != 0)
         self.assume(z3.Not(self.alloc[r]))
-        self.alloc = z3.Store(self.alloc, r, z3.BoolVal(True))
+        na = self.fresh("ALLOC_v", self.alloc.sort())
+        self.pc.append(na == z3.Store(self.alloc, r, z3.BoolVal(True)))
+        self.alloc = na
         if cname:
             self.assume(typeof(r) == class_id(cname))
         return r
+
+    def good_heap(self):
+        """heap closure: the elements of an allocated list are allocated (or None).  Lists of ints share the
+        item map with lists of references; for them the fact is vacuous (it only makes fresh objects
+        differ from those integers)."""
+        it0 = self.items_map(0, INT)
+        ln = self.hmap("$len", INT)
+        o = z3.Const(f"gh_o?{next(self.cnt)}", REF)
+        i = z3.Const(f"gh_i?{next(self.cnt)}", INT)
+        e = it0[o][i]
+        self.pc.append(z3.ForAll([o, i], z3.Implies(z3.And(self.alloc[o], 0 <= i, i < ln[o]), z3.Or(e == 0, self.alloc[e])),
+                                 patterns=[e], qid=f"good_heap_{next(self.cnt)}"))
+        o3 = z3.Const(f"gh_o?{next(self.cnt)}", REF)
+        self.pc.append(z3.ForAll([o3], ln[o3] >= 0, patterns=[ln[o3]], qid=f"good_heap_len_{next(self.cnt)}"))
+        for (field, sk), m in sorted(self.heap.items(), key=lambda kv: kv[0]):
+            if field == "$dval" and m.sort().range() == z3.ArraySort(INT, INT):
+                d_, k_ = z3.Const(f"gh_d?{next(self.cnt)}", REF), z3.Const(f"gh_k?{next(self.cnt)}", INT)
+                has = self.hmap("$dhas", z3.ArraySort(INT, BOOL))
+                v_ = m[d_][k_]
+                self.pc.append(z3.ForAll([d_, k_], z3.Implies(z3.And(self.alloc[d_], has[d_][k_]),
+                                                              z3.And(z3.Or(v_ == 0, self.alloc[v_]), z3.Or(k_ == 0, self.alloc[k_]))),
+                                         patterns=[v_], qid=f"good_heap_dict_{next(self.cnt)}"))
+        # reference-valued fields of allocated objects point to allocated objects (or None)
+        heapy = {f for (c, f), ty in spec.FIELD_TYPES.items() if ty.is_heap}
+        for (field, sk), m in sorted(self.heap.items(), key=lambda kv: kv[0]):
+            if field in heapy and m.sort().range() == INT:
+                o2 = z3.Const(f"gh_o?{next(self.cnt)}", REF)
+                self.pc.append(z3.ForAll([o2], z3.Implies(self.alloc[o2], z3.Or(m[o2] == 0, self.alloc[m[o2]])),
+                                         patterns=[m[o2]], qid=f"good_heap_{field}_{next(self.cnt)}"))
 
     def snapshot(self):
         return (dict(self.heap), self.alloc)
@@ -399,12 +436,38 @@ class Ex:
         v = self.ev(s.value, fr)
         for tg in s.targets:
             self.assign(tg, v, fr)
+            self.assign_hook(tg, fr, v)
 
     def st_AnnAssign(self, s, fr):
         if s.value is None:
             return
         v = self.ev(s.value, fr)
         self.assign(s.target, v, fr)
+        self.assign_hook(s.target, fr, v)
+
+    def assign_hook(self, tg, fr, v):
+        con = fr.contract
+        if con is None or not con.ghost_after or fr.fi is None or fr.fi.node is None or con.qual.split("#")[0] != fr.fi.qual:
+            return
+        nm = tg.attr if isinstance(tg, ast.Attribute) else (tg.id if isinstance(tg, ast.Name) else None)
+        if nm is None:
+            return
+        tab = getattr(fr.fi, "_assign_ord", None)
+        if tab is None:
+            tab, counts = {}, {}
+            nodes = [n for n in ast.walk(fr.fi.node) if isinstance(n, (ast.Assign, ast.AnnAssign))]
+            nodes.sort(key=lambda n: (n.lineno, n.col_offset))
+            for n in nodes:
+                for t in (n.targets if isinstance(n, ast.Assign) else [n.target]):
+                    tn = t.attr if isinstance(t, ast.Attribute) else (t.id if isinstance(t, ast.Name) else None)
+                    if tn is None:
+                        continue
+                    k = counts.get(tn, 0)
+                    counts[tn] = k + 1
+                    tab[id(t)] = f"assign:{tn}@{k}"
+            fr.fi._assign_ord = tab
+        for stmt in con.ghost_after.get(tab.get(id(tg)), []):
+            self.ghost_exec(stmt, fr, v)
 
     def st_AugAssign(self, s, fr):
         cur = self.ev(s.target, fr)
@@ -547,12 +610,20 @@ class Ex:
         g = guard_fn(fr)
         if branch == 0:
             self.assume(g)
+            saved_head = getattr(fr, "loop_head", None)
+            fr.loop_head = (self.snapshot(), dict(fr.locals))
             try:
                 body_fn(fr)
             except ContinueEx:
                 pass
             except BreakEx:
+                fr.loop_head = saved_head
                 return
+            # proof hints: lemmas proved at the end of the body, then available to the invariant obligations
+            for c in ls.get("hints", []):
+                gl = speceval.clause(self, c, fr, loop_entry=(entry, entry_locals))
+                self.oblige("loop-hint", c.label, gl, c.tags, loc, c.text, site=str(k))
+                self.assume(gl)
             for c in inv:
                 gl = speceval.clause(self, c, fr, loop_entry=(entry, entry_locals))
                 self.oblige("loop-step", c.label, gl, c.tags, loc, c.text, site=str(k))
@@ -879,7 +950,98 @@ class Ex:
         v = self.ev(e.value, fr)
         return models.subscript(self, v, e.slice, fr, e)
 
+    def call_ordinal(self, fr, e):
+        """static ordinal of call site `e` among the calls with the same callee name in fr.fi"""
+        tab = getattr(fr.fi, "_call_ord", None)
+        if tab is None:
+            tab, counts = {}, {}
+            calls = [n for n in ast.walk(fr.fi.node) if isinstance(n, ast.Call)]
+            calls.sort(key=lambda n: (n.lineno, n.col_offset))
+            for n in calls:
+                f = n.func
+                nm = f.attr if isinstance(f, ast.Attribute) else (f.id if isinstance(f, ast.Name) else None)
+                if nm is None:
+                    continue
+                k = counts.get(nm, 0)
+                counts[nm] = k + 1
+                tab[id(n)] = f"{nm}@{k}"
+            fr.fi._call_ord = tab
+        return tab.get(id(e))
+
     def ev_Call(self, e, fr):
+        r = self.ev_Call0(e, fr)
+        con = fr.contract
+        if con is not None and con.ghost_after and not fr.spec and fr.fi is not None and fr.fi.node is not None \
+                and con.qual.split("#")[0] == fr.fi.qual:
+            key = self.call_ordinal(fr, e)
+            for stmt in con.ghost_after.get(key, []):
+                self.ghost_exec(stmt, fr, r)
+        return r
+
+    def ghost_exec(self, text, fr, last_result):
+        """ghost statement:  setg(obj, '$field', value)  evaluated in specification mode"""
+        node = ast.parse(" ".join(text.split()), mode="eval").body
+        if isinstance(node, ast.Call) and isinstance(node.func, ast.Name) and node.func.id == "setg_all":
+            return self.ghost_setall(node, fr)
+        if not (isinstance(node, ast.Call) and isinstance(node.func, ast.Name) and node.func.id == "setg"):
+            raise Unsupported(f"ghost statement {text!r}")
+        was = fr.spec
+        fr.spec = True
+        saved = fr.locals.get("_call_result")
+        fr.locals["_call_result"] = last_result
+        try:
+            obj = self.ev(node.args[0], fr)
+            val = self.ev(node.args[2], fr)
+        finally:
+            fr.spec = was
+            if saved is None:
+                fr.locals.pop("_call_result", None)
+            else:
+                fr.locals["_call_result"] = saved
+        fname = node.args[1].value
+        ft = spec.field_type(None, fname)
+        if ft is None or fname not in spec.GHOST_FIELDS:
+            raise Unsupported(f"ghost field {fname} not declared")
+        self.wr(obj.t, fname, val, ft)
+
+    def ghost_setall(self, node, fr):
+        """setg_all(lambda k: obj(k), '$field', lambda k: value(k), lo, hi): quantified ghost assignment.
+        Emits the injectivity obligation that makes it well defined."""
+        from . import speceval
+        objl, fname, vall, lo, hi = node.args[0], node.args[1].value, node.args[2], node.args[3], node.args[4]
+        ft = spec.field_type(None, fname)
+        was = fr.spec
+        fr.spec = True
+        try:
+            lo_t, hi_t = self.ev(lo, fr).t, self.ev(hi, fr).t
+            k1, k2 = z3.Int(f"gk1?{next(self.cnt)}"), z3.Int(f"gk2?{next(self.cnt)}")
+
+            def at(lam, k):
+                saved = dict(fr.bound)
+                fr.bound[lam.args.args[0].arg] = vint(k)
+                self.binder_depth = getattr(self, "binder_depth", 0) + 1
+                mark = len(self.pc)
+                try:
+                    return self.ev(lam.body, fr)
+                finally:
+                    self.binder_depth -= 1
+                    del self.pc[mark:]
+                    fr.bound = saved
+            o1, o2 = at(objl, k1), at(objl, k2)
+            v1 = self.coerce(at(vall, k1), ft)
+        finally:
+            fr.spec = was
+        inr = lambda k: z3.And(lo_t <= k, k < hi_t)
+        self.oblige("ghost", f"setg_all_{fname.strip('$')}_injective",
+                    z3.ForAll([k1, k2], z3.Implies(z3.And(inr(k1), inr(k2), k1 != k2), o1.t != o2.t)), (), "", "ghost assignment well defined")
+        m = self.hmap(fname, ft.sort())
+        nm = self.fresh(f"H_{fname}_g", m.sort())
+        o = z3.Const(f"o?{next(self.cnt)}", REF)
+        self.assume(z3.ForAll([k1], z3.Implies(inr(k1), nm[o1.t] == v1.t)))
+        self.assume(z3.ForAll([o], z3.Implies(z3.Not(z3.Exists([k1], z3.And(inr(k1), o == o1.t))), nm[o] == m[o]), patterns=[nm[o]]))
+        self.hset(fname, ft.sort(), nm)
+
+    def ev_Call0(self, e, fr):
         from . import models, speceval
         # spec-language forms
         if fr.spec and isinstance(e.func, ast.Name):
@@ -965,6 +1127,18 @@ class Ex:
             return self.call_method(fv_, "__call__", args, kwargs, fr, node)
         if k == "lambda":
             return self.call_lambda(fv_, args, fr)
+        if k == "dynclass":
+            # construction through a {config class: deme class} table: the class of the result is the table
+            # entry of the dynamic class of the key object; the constructor is the abstract deme constructor
+            con = spec.CONTRACTS.get("ext.$DemeCtor.__call__")
+            if con is None:
+                raise Unsupported("no contract ext.$DemeCtor.__call__")
+            res = self.apply_contract(con, None, None, args, kwargs, fr, node)
+            table = fv_.meta["map"].meta["table"]
+            for kname, vname in sorted(table.items()):
+                self.assume(DEME_CLASS_OF(class_id(kname)) == class_id(vname))
+            self.assume(typeof(res.t) == DEME_CLASS_OF(typeof(fv_.t)))
+            return res
         if k == "ext":
             con = spec.CONTRACTS.get(f"ext.{fv_.ty.cls}.__call__")
             if con is None:
